@@ -318,6 +318,7 @@ func prunedData(rec rapid.VerifRec) (out string) {
 
 func corrGens(r *rng, c *caseOut, n int, strAll bool) {
 	for i := 0; i < n; i++ {
+		r.customFatal = 0
 		sx, _ := r.anyGen(1 + r.intn(3))
 		ws := r.words(40)
 		if r.chance(1, 3) { // PRNG-like stream: generators mostly succeed
